@@ -490,7 +490,25 @@ impl StakeKeeper {
             .unwrap();
 
         let remaining_percentage = Decimal::one() - percentage;
-        validator_info.stake = validator_info.stake.mul_floor(remaining_percentage);
+
+        // update all stakers; what remains of their stakes (in whole tokens) is the validator's stake,
+        // scaling the validator's total on its own could round it down to zero
+        // while delegators still hold whole tokens
+        let mut remaining_stake = Decimal::zero();
+        for delegator in validator_info.stakers.iter() {
+            let shares = STAKES.update(
+                staking_storage,
+                (delegator, validator),
+                |stake| -> AnyResult<_> {
+                    let mut stake = stake.expect("all stakers in validator_info should exist");
+                    stake.stake *= remaining_percentage;
+
+                    Ok(stake)
+                },
+            )?;
+            remaining_stake += shares.stake;
+        }
+        validator_info.stake = Uint128::new(1).mul_floor(remaining_stake);
 
         // if the stake is completely gone, we clear all stakers and reinitialize the validator
         if validator_info.stake.is_zero() {
@@ -499,20 +517,6 @@ impl StakeKeeper {
                 STAKES.remove(staking_storage, (delegator, validator));
             }
             validator_info.stakers.clear();
-        } else {
-            // otherwise we update all stakers
-            for delegator in validator_info.stakers.iter() {
-                STAKES.update(
-                    staking_storage,
-                    (delegator, validator),
-                    |stake| -> AnyResult<_> {
-                        let mut stake = stake.expect("all stakers in validator_info should exist");
-                        stake.stake *= remaining_percentage;
-
-                        Ok(stake)
-                    },
-                )?;
-            }
         }
         // go through the queue to slash all pending unbondings
         let mut unbonding_queue = UNBONDING_QUEUE
